@@ -351,6 +351,34 @@ def _expand(names, cells):
         yield frozenset(asg)
 
 
+def _random_formulas(n, seed):
+    """seeded random formulas over up to 6 names (connectives, if-then-else, counting, quantifiers): richer diagrams for the
+    table checks than the fixed list (skipped levels -> Any cells, shared sub-diagrams, bound names)"""
+    rng = random.Random(seed * 7919 + 13)
+    names = ["p", "q", "r", "s", "t", "u"]
+
+    def g(d, pool):
+        k = rng.randrange(10) if d > 0 else 0
+        if k <= 1:
+            return rng.choice(pool)
+        if k == 2:
+            return "-" + g(d - 1, pool)
+        if k <= 5:
+            return "(" + g(d - 1, pool) + " " + rng.choice(["&", "|", "^", "=>", "<=>", "&", "|"]) + " " + g(d - 1, pool) + ")"
+        if k == 6:
+            return "(if " + g(d - 1, pool) + " then " + g(d - 1, pool) + " else " + g(d - 1, pool) + ")"
+        if k == 7:
+            m = rng.randrange(1, 4)
+            return "([" + ", ".join(g(d - 1, pool) for _ in range(m)) + "] " + rng.choice(["=", "<=", ">=", "<", ">"]) + " " + str(rng.randrange(0, m + 1)) + ")"
+        v = rng.choice(pool)
+        return "(" + rng.choice(["exists", "forall"]) + " " + v + " # " + g(d - 1, pool) + ")"
+    out = []
+    for i in range(n):
+        pool = names[:rng.randrange(2, 7)]
+        out.append(g(3 + i % 2, pool))
+    return out
+
+
 def sweep_table(repo, budget, seed, binary=None):
     """`rsbdd -t [-f F]` and `-v` against the reference evaluator of the replay crate: header = the free variables; rows are
     disjoint, their result column is right on every assignment they cover, and they cover all / the satisfying / the
@@ -366,7 +394,9 @@ def sweep_table(repo, budget, seed, binary=None):
         return None, 0, err
     checked = 0
     with tempfile.TemporaryDirectory(prefix="clitable", dir=WORK) as tmp:
-        for f in TABLE_FORMULAS:
+        fixed = list(TABLE_FORMULAS)
+        extra = [x for x in _random_formulas(budget // 75, seed) if x not in fixed] if budget else []
+        for f in fixed + extra:
             ref = subprocess.run([rbin, "ref", "formula", f], capture_output=True, text=True, timeout=60)
             try:
                 rj = json.loads(ref.stdout.strip().split("\n")[-1])
@@ -440,11 +470,21 @@ def sweep_table(repo, budget, seed, binary=None):
             if got != sat:
                 return {"mode": "clitable", "case": case, "expected": f"-v lists exactly the {len(sat)} satisfying assignments", "actual": r[1][:400]}, checked, ""
             v_lines = [l for l in r[1].split("\n") if l.strip().endswith(";")]
+            if f not in fixed:
+                continue
             # same output through every input channel, for every repetition count, for every spelling of a filter
             fp = os.path.join(tmp, "formula.txt")
             with open(fp, "w") as fh:
                 fh.write(f)
+            # the same text laid out over several lines (line breaks are plain white space in the formula language)
+            f_nl = f.replace(" ", "\n") + "\n"
+            fp2 = os.path.join(tmp, "formula_nl.txt")
+            with open(fp2, "w") as fh:
+                fh.write(f_nl)
             variants = [(["-t", fp], None, "|", base_table, "file"), (["-t"], f.encode(), "|", base_table, "stdin"),
+                        (["-t", "--evaluate=" + f_nl], None, "|", base_table, "multi-line --evaluate"),
+                        (["-t", fp2], None, "|", base_table, "multi-line file"), (["-t"], f_nl.encode(), "|", base_table, "multi-line stdin"),
+                        (["-v"], f_nl.encode(), ";", v_lines, "-v multi-line stdin"),
                         (["-t", "-b", "2", "--evaluate=" + f], None, "|", base_table, "-b 2"), (["-t", "-b", "5", fp], None, "|", base_table, "-b 5 file"),
                         (["-v", fp], None, ";", v_lines, "-v file"), (["-v", "-b", "3"], f.encode(), ";", v_lines, "-v -b 3 stdin")]
             for args, stdin, mark, want, label in variants:
